@@ -14,8 +14,9 @@ package main
 // abstracted back.  Walks chain such cases (the output world of one call, after an optional
 // status change by the "workload controller", is the input world of the next) and carry the
 // walk's original user settings along as the ghost `orig` used by the C05 oracles.
-// Op "retry" runs the same call three times: with the fault, again without fault on the result,
-// and without fault on the initial world (C06 convergence).
+// Op "retry" runs the same call four times: with the fault ("first"), again without fault on the result
+// ("second"), without fault on the initial world ("direct") and once more on that result ("again")
+// (C06 convergence and idempotence).
 
 import (
 	"context"
@@ -615,7 +616,8 @@ func bgRetry(c *Ctx, in bgIn) {
 		first := bgCall(in.Kind, in.World, in.BR, in.Op, in.Fault)
 		second := bgCall(in.Kind, first.World, in.BR, in.Op, bgFault{})
 		direct := bgCall(in.Kind, in.World, in.BR, in.Op, bgFault{})
-		return J{"first": first, "second": second, "direct": direct}
+		again := bgCall(in.Kind, direct.World, in.BR, in.Op, bgFault{})
+		return J{"first": first, "second": second, "direct": direct, "again": again}
 	})
 	c.Emit("retry", in, impl)
 }
